@@ -76,3 +76,19 @@ Definition c10_spec_step (n : nat) (i : c10_instr) (st : list N * list c10_event
   end.
 Definition c10_spec_run (n : nat) (prog : list c10_instr) (st : list N * list c10_event) : list N * list c10_event :=
   fold_left (fun s i => c10_spec_step n i s) prog st.
+
+(* ---------- round 6: printing on a stream in an arbitrary formatting state.  What the property prescribes: the text is
+   the hexadecimal rendering of the value (4n digits, letters in the case the stream asks for), placed in a field of the
+   pending width like any other inserted item (fill characters in front; behind for adjustfield == left); the width is
+   consumed, the stream is left in decimal, every other flag is as before.  Reading back: case-insensitive. *)
+Definition c10_hexdigit_val_ci (c : ascii) : N :=
+  match c with "A" => 10 | "B" => 11 | "C" => 12 | "D" => 13 | "E" => 14 | "F" => 15 | _ => c10_hexdigit_val c end%char.
+Definition c10_hexval_ci (l : list ascii) : N := fold_left (fun v c => v * 16 + c10_hexdigit_val_ci c) l 0.
+Definition c10_print_case (uc : bool) (a : big) : list ascii := if uc then map c10_upcase (c10_print a) else c10_print a.
+Definition c10_spec_field (s : c10_ios) (body : list ascii) : list ascii :=
+  let p := repeat (c10_s_fill s) (N.to_nat (c10_s_width s) - length body) in
+  if c10_adjust_is_left s then body ++ p else p ++ body.
+(* taking the padding off again: the len characters at the left (left adjustment) or at the right end of the field *)
+Definition c10_spec_unfield (s : c10_ios) (len : nat) (out : list ascii) : list ascii :=
+  if c10_adjust_is_left s then firstn len out else skipn (length out - len) out.
+Definition c10_spec_ios_after (s : c10_ios) : c10_ios := c10_ios_set_width (c10_ios_set_base s C10_dec) 0.
